@@ -35,6 +35,21 @@ fn check_step(rep: &mut Report, before: &[u8], after: &[u8], read_only: bool, wh
     }
 }
 
+/// Every cut point of `stride` (the k*stride-th messages of `thread`) already has a checkpoint frame
+/// in `log`: auto-compaction then has nothing to do. Read from the log bytes, not from any answer.
+fn nothing_to_do(log: &[u8], thread: &str, stride: u64) -> bool {
+    if stride == 0 {
+        return false;
+    }
+    let frames: Vec<Value> = String::from_utf8_lossy(log).lines().filter_map(|l| serde_json::from_str::<Value>(l).ok()).filter(|f| f["session_id"].as_str() == Some(thread)).collect();
+    let msg_seqs: Vec<u64> = frames.iter().filter(|f| f["type"] == "continuity_message_appended").filter_map(|f| f["seq"].as_u64()).collect();
+    msg_seqs
+        .iter()
+        .enumerate()
+        .filter(|(i, _)| (*i as u64 + 1) % stride == 0)
+        .all(|(_, q)| frames.iter().any(|f| f["type"] == "continuity_compaction_checkpoint_created" && f["to_seq"].as_u64() == Some(*q)))
+}
+
 pub fn run(opts: &Opts) -> Report {
     let mut rep = Report::new(
         "C02",
@@ -62,7 +77,41 @@ pub fn run(opts: &Opts) -> Report {
         // schedule(execute=false), then dry runs with the default (blocking) in-flight policy
         let structured = rng.chance(1, 3);
         let nops = if structured { nops + 4 } else { nops };
+        // a second structured tail: a backlog of cut points drained one checkpoint per call (the
+        // planner goes latest-first, so checkpoint frames land out of to_seq order), then a repeat
+        let backfill = !structured && rng.chance(1, 3);
+        let nops = if backfill { nops + 1 } else { nops };
         for op_no in 0..nops {
+            if backfill && op_no + 1 == nops {
+                for i in 0..5 {
+                    let _ = store.append_message(&t0, "u".into(), "cli".into(), format!("backlog {i}"));
+                }
+                let st = rng.range(1, 2);
+                let mut drained = false;
+                for _ in 0..60 {
+                    let before = read();
+                    let nothing = nothing_to_do(&before, &t0, st);
+                    let r = store.compaction_auto_v1(&t0, CompactionAutoV1Request { stride_messages: Some(st), max_new_checkpoints: Some(1), dry_run: Some(false), actor_id: "u".into(), origin: "cli".into() });
+                    let after = read();
+                    rep.count("structured_backfill_ops");
+                    let name = format!("structured:auto(stride={st},max_new=1,nothing_to_do={nothing})");
+                    if !after.starts_with(&before) {
+                        rep.oracle_failure("C02|not-append-only", &format!("after {name} the previous log content is not a prefix"), json!({"op": name}));
+                    }
+                    if nothing && after.len() != before.len() {
+                        rep.oracle_failure("C02|noop-wrote|backfilled-checkpoints", &format!("{name}: every cut point already has a checkpoint frame, yet the call appended {} bytes to the truth log", after.len() - before.len()), json!({"op": name, "ops_before": ops_done, "appended": String::from_utf8_lossy(&after[before.len()..]).chars().take(400).collect::<String>()}));
+                    }
+                    if nothing || r.is_err() {
+                        drained = nothing;
+                        break;
+                    }
+                }
+                if drained {
+                    rep.count("structured_backfill_drained");
+                }
+                ops_done.push("structured:backfill".into());
+                continue;
+            }
             let t = if rng.chance(1, 10) { "unknown-thread".to_string() } else { rng.pick(&threads).clone() };
             let stride = *rng.pick(&nums);
             let other = *rng.pick(&nums);
@@ -134,7 +183,14 @@ pub fn run(opts: &Opts) -> Report {
                 7 => {
                     let dry = rng.chance(1, 2);
                     let r = store.compaction_auto_v1(&t, CompactionAutoV1Request { stride_messages: stride, max_new_checkpoints: other.map(|x| x as u32), dry_run: Some(dry), actor_id: "u".into(), origin: "cli".into() });
-                    let noop = r.as_ref().map(|x| x.status == "noop").unwrap_or(true);
+                    // whether the call is a no-op is decided from the log as it was before the call
+                    // (every cut point of the stride already carries a checkpoint frame), not only
+                    // from what the call reports about itself
+                    let nothing = r.as_ref().map(|x| nothing_to_do(&before, &t, x.stride_messages)).unwrap_or(false);
+                    if nothing {
+                        rep.count("auto_with_nothing_to_do");
+                    }
+                    let noop = r.as_ref().map(|x| x.status == "noop").unwrap_or(true) || nothing;
                     (format!("auto(dry={dry},noop={noop})"), dry || noop)
                 }
                 8 => {
@@ -142,7 +198,11 @@ pub fn run(opts: &Opts) -> Report {
                     let r = store.compaction_auto_schedule_v1(&t, CompactionAutoScheduleV1Request { stride_messages: stride, max_new_checkpoints: other.map(|x| x as u32), block_on_inflight: Some(rng.chance(1, 2)), execute: Some(rng.chance(1, 2)), dry_run: Some(dry), actor_id: "u".into(), origin: "cli".into() });
                     // a dry run must be silent whatever it reports (the expectation comes from the request,
                     // not from the answer); otherwise silence is expected for the noop decision and for errors
-                    let silent = dry || r.as_ref().map(|x| x.decision == "noop" || x.decision == "dry_run").unwrap_or(true);
+                    let nothing = r.as_ref().map(|x| nothing_to_do(&before, &t, x.stride_messages)).unwrap_or(false);
+                    if nothing {
+                        rep.count("schedule_with_nothing_to_do");
+                    }
+                    let silent = dry || nothing || r.as_ref().map(|x| x.decision == "noop" || x.decision == "dry_run").unwrap_or(true);
                     (format!("auto_schedule(dry={dry},silent={silent})"), silent)
                 }
                 9 => {
